@@ -7,6 +7,8 @@ children lists) with re.fullmatch / the predicate; tree[key] by a resolution tab
 
 from __future__ import annotations
 
+import functools
+import operator
 import re
 
 from .. import gen
@@ -33,6 +35,23 @@ STR_ALPH = ["a", "b", "ab", "abc", "B", "c"]
 PATTERNS = ["\u00ab[ab]\u00bb", ["\u00aba.*", int(re.I)], ["a", int(re.I)], "a", ["[ab]", int(re.I)], "[ab]", ["ab?", int(re.I)], ".*", "a|b", "ab?", "a.*", "x", "(?i)b", ["A", int(re.I)],
             ["a.", int(re.S)], "", "a+b*c?", ["b", int(re.I)], "b"]
 FLAVOURS = ["str", "int", "ids"]
+
+
+def _has_label(nd, labels=()):
+    return str(nd.data) in labels
+
+
+class _LeafTest:
+    def __call__(self, nd):
+        return not nd.children
+
+    def inner(self, nd):
+        return bool(nd.children)
+
+
+class _Always:
+    def __init__(self, nd):
+        pass
 
 
 def ident(lst):
@@ -206,7 +225,11 @@ def run_case(case, res):
                      ("leaf", lambda nd: not nd.children), ("none", lambda nd: False),
                      # predicates that return values: truthiness decides ('' / [] / () / 0 are "no match")
                      ("children-list", lambda nd: list(nd.children)), ("name-stripped", lambda nd: str(nd.data).strip("ab")),
-                     ("meta-tuple", lambda nd: nd.get_meta("tags", ())), ("count", lambda nd: len(nd.children))]
+                     ("meta-tuple", lambda nd: nd.get_meta("tags", ())), ("count", lambda nd: len(nd.children)),
+                     # predicates that are callable *objects*: a partial, an instance with __call__, a bound method of a user
+                     # object, a class (its instances are truthy: matches everything)
+                     ("partial", functools.partial(_has_label, labels=("a", "B", "3"))), ("callable-instance", _LeafTest()),
+                     ("bound-method", _LeafTest().inner), ("methodcaller", operator.methodcaller("is_leaf")), ("class", _Always)]
             for start in starts:
                 for add_self in ([False] if start is None else [False, True]):
                     sub = order if start is None else ([start] if add_self else []) + desc(start)
@@ -303,6 +326,12 @@ def run_case(case, res):
                 if (type(key), key) in seen or isinstance(key, bool):
                     continue
                 seen.add((type(key), key))
+                if isinstance(key, (int, str)) and len(seen) % 2:
+                    # an earlier search for this value *as an id* (usually without a hit) must not change what index access
+                    # and membership answer for it
+                    attempt(lambda: t.find_all(data_id=key))
+                    attempt(lambda: t.find_first(data_id=key))
+                    res.count("id_searches_before_index_access")
                 by_nid = [x for x in order if isinstance(key, int) and x.node_id == key]
                 by_did = [x for x in order if isinstance(key, (int, str)) and x.data_id == key]
                 by_data = [x for x in order if x.data_id == hash(key)]
@@ -341,6 +370,17 @@ def run_case(case, res):
                     bad.append(f"tree[<dict record {rec['k']}>] on a tree with an id hook: got {got!r}, expected {exp!r}")
                 if attempt(lambda: rec in ht) is not (not isinstance(exp, tuple) or exp[1] == "AmbiguousMatchError"):
                     bad.append(f"<dict record {rec['k']}> in tree: wrong answer")
+            # a hook that only understands the tree's own records (anything else makes it raise): keys that *are* ids of nodes
+            # are resolved without asking the hook about the key
+            st = _HT("strict-hook", calc_data_id=lambda tree, d: d["k"])
+            sn = [st.add(recs[0]), st.add({"k": 4711, "payload": []})]
+            sn.append(sn[0].add(recs[2]))
+            sn.append(sn[1].add(recs[2]))
+            for key, exp in (("rec0", sn[0]), (4711, sn[1]), ("rec2", ("EXC", "AmbiguousMatchError")), (recs[0], sn[0]), (sn[1].node_id, sn[1])):
+                got = attempt(lambda: st[key])
+                res.count("getitem:strict_hook")
+                if (got is not exp) if not isinstance(exp, tuple) else (got != exp):
+                    bad.append(f"tree[{key!r}] on a tree whose id hook only accepts its own records: got {got!r}, expected {exp!r}")
             if order:
                 got = attempt(lambda: t[order[0]])
                 if got != ("EXC", "ValueError"):
